@@ -34,6 +34,8 @@ class AORun(object):
     self.started = {}        # obj index -> seq at which start_at returned
     self.fx_fired = {}
     self.events = {}
+    self.live_spy = {}
+    self.live_trace = {}
 
   # ------------------------------------------------------------ chart of an object
   def make_handlers(self, oi, od):
@@ -59,7 +61,36 @@ class AORun(object):
 
     body.__name__ = 'only_%d' % oi
     body.__qualname__ = body.__name__
-    return hsm.spy_on(body) if od.get('spied', True) else body
+    if not od.get('two_states'):
+      return hsm.spy_on(body) if od.get('spied', True) else body
+
+    # two sibling states; the signal SW makes the chart go to the other one (so that the trace grows)
+    box = {}
+
+    def make(me, other):
+      def st(chart, e):
+        sn = e.signal_name
+        sig = e.signal
+        if sig == signals.ENTRY_SIGNAL or sig == signals.INIT_SIGNAL or sig == signals.EXIT_SIGNAL:
+          return rs.HANDLED
+        if sn == 'SW':
+          run.dispatch.append((run.sim.record('disp', run.names[oi], sn, e.payload), oi, sn, e.payload,
+                               kernel.current_ctl().name if kernel.current_ctl() else '?'))
+          return chart.trans(box[other])
+        if sn in USER_SIGNALS or sn.startswith('T'):
+          run.dispatch.append((run.sim.record('disp', run.names[oi], sn, e.payload), oi, sn, e.payload,
+                               kernel.current_ctl().name if kernel.current_ctl() else '?'))
+          for f in react.get(sn, []):
+            run.handler_fx(oi, chart, e, f)
+          return rs.HANDLED
+        chart.temp.fun = chart.top
+        return rs.SUPER
+      st.__name__ = '%s_%d' % (me, oi)
+      st.__qualname__ = st.__name__
+      return hsm.spy_on(st)
+    box['a'] = make('a', 'b')
+    box['b'] = make('b', 'a')
+    return box['a']
 
   def handler_fx(self, oi, chart, e, f):
     """side effects made by a handler during a step (bounded by a fire count)"""
@@ -184,8 +215,19 @@ class AORun(object):
           return False
     return True
 
+  def writer_idle(self):
+    if not self.objs:
+      return True
+    w = self.objs[0].writer
+    if w._queue._qsize() != 0:
+      return False
+    wt = w._thread
+    if wt is not None and wt._ctl is not None and wt._ctl.state != kernel.DONE:
+      return wt._ctl.state == kernel.BLOCKED and wt._ctl.desc.startswith('get:')
+    return True
+
   def all_idle(self):
-    return self.fabric_idle() and all(self.idle(i) for i in range(len(self.objs)))
+    return self.fabric_idle() and all(self.idle(i) for i in range(len(self.objs))) and self.writer_idle()
 
   def client(self, k, script):
     ev = seams.mods['event']
@@ -341,12 +383,14 @@ def default_objects(n, spied=True):
   return [{'name': 'ao%d' % (i + 1), 'spied': spied, 'instrumented': True, 'react': {}} for i in range(n)]
 
 
-def run_ao(sc, sched, max_steps=200000, horizon_s=None):
+def run_ao(sc, sched, max_steps=200000, horizon_s=None, before_run=None):
   sim = common.new_sim(sc, sched, max_steps=max_steps, default_gran='line')
   if sc.get('queue_size'):
     seams.set_queue_size(sc['queue_size'])
   run = AORun(sc, sim)
   sim.monitors.append(run.monitor)
+  if before_run is not None:
+    before_run(sim)
   jit = sc.get('jitter_us')
   if jit:
     jr = random.Random(sched.get('seed', 0) * 4 + 1)
@@ -362,6 +406,13 @@ def run_ao(sc, sched, max_steps=200000, horizon_s=None):
     for oi, od in enumerate(sc['objects']):
       o = ao.ActiveObject(name=od['name'], instrumented=od.get('instrumented', True))
       o.locking_deque.deque._watch = True
+      if od.get('live_spy') or od.get('live_trace'):
+        run.live_spy.setdefault(oi, [])
+        run.live_trace.setdefault(oi, [])
+        o.live_spy = bool(od.get('live_spy'))
+        o.live_trace = bool(od.get('live_trace'))
+        o.register_live_spy_callback(lambda line, oi=oi: run.live_spy[oi].append(line))
+        o.register_live_trace_callback(lambda line, oi=oi: run.live_trace[oi].append(line))
       run.objs.append(o)
       run.names.append(od['name'])
       run.handlers.append(run.make_handlers(oi, od))
